@@ -30,6 +30,11 @@ type c10Case struct {
 	Cmds []c10Cmd `json:"cmds"`
 	// NoTail: the last command is the last statement of the dialogue (nothing follows it)
 	NoTail bool `json:"no_tail,omitempty"`
+	// InOption: everything after the first line is the body of an option the host chooses, so that the first command is
+	// what the choice leads to directly (the choice was consumed when the command started; it is not taken again on resume)
+	InOption bool `json:"in_option,omitempty"`
+	// Decoy: another runner of the process registers its own handlers under the same command names afterwards
+	Decoy bool `json:"decoy,omitempty"`
 }
 
 type c10Harness struct {
@@ -78,6 +83,21 @@ func timedNext(dr *ysgo.DialogueRunner, limit time.Duration) (nextResult, bool) 
 }
 
 func (c c10Case) script() string {
+	if !c.InOption {
+		return c.plainScript()
+	}
+	plain := c.plainScript()
+	body := strings.TrimSuffix(strings.TrimPrefix(plain, "title: Start\n---\nM0\n"), "===\n")
+	var b strings.Builder
+	b.WriteString("title: Start\n---\nM0\n-> go\n")
+	for _, line := range strings.Split(strings.TrimSuffix(body, "\n"), "\n") {
+		b.WriteString("    " + line + "\n")
+	}
+	b.WriteString("-> other\n    never shown\n    <<k0 wrong 99>>\n===\n")
+	return b.String()
+}
+
+func (c c10Case) plainScript() string {
 	var b strings.Builder
 	b.WriteString("title: Start\n---\nM0\n")
 	for i := range c.Cmds {
@@ -163,6 +183,21 @@ func runC10(c c10Case) Verdict {
 			return failf("registering the %s handler failed: %v", cmd.Shape, regErr)
 		}
 	}
+	if c.Decoy {
+		decoy, err := ysgo.NewDialogueRunner(nil, "abc", strings.NewReader(src))
+		if err != nil {
+			return failf("script does not load the second time: %v", err)
+		}
+		for i := range c.Cmds {
+			name := fmt.Sprintf("k%d", i)
+			decoy.AddCommand(name, func(args []*variable.Value) <-chan error {
+				h.note("the handler of ANOTHER runner: " + showCall(name, toMvals(args)))
+				ch := make(chan error, 1)
+				ch <- nil
+				return ch
+			})
+		}
+	}
 	defer func() { // never leave handler goroutines blocked
 		for i, g := range h.gates {
 			if c.Cmds[i].Polls != 0 {
@@ -206,6 +241,13 @@ func runC10(c c10Case) Verdict {
 		return *v
 	} else if kind != "line" || text != "M0" {
 		return failf("unexpected first element %s %q%s", kind, text, ctx())
+	}
+	if c.InOption {
+		if kind, text, v := next(); v != nil {
+			return *v
+		} else if kind != "other" {
+			return failf("expected the option group after the first line, got %s %q%s", kind, text, ctx())
+		}
 	}
 	pendingPolls := 0
 	for i, cmd := range c.Cmds {
@@ -362,6 +404,8 @@ var c10Pending = Register(Prop[c10Case]{
 			})
 		}
 		c.NoTail = rapid.IntRange(0, 3).Draw(t, "notail") == 0
+		c.InOption = rapid.IntRange(0, 2).Draw(t, "inoption") == 0
+		c.Decoy = rapid.IntRange(0, 3).Draw(t, "decoy") == 0
 		return c
 	},
 	Run: runC10,
@@ -373,7 +417,7 @@ func TestC10Pending(t *testing.T) { Check(t, c10Pending) }
 var c10Matrix = Register(Prop[c10Case]{ID: "C10", Name: "schedule-matrix", Run: runC10})
 
 func TestC10ScheduleMatrix(t *testing.T) {
-	Enumerate(t, c10Matrix, true, "every handler shape x polls in 0..3 x nil/error, alone, twice in a row, and followed by an immediately completing command",
+	Enumerate(t, c10Matrix, true, "every handler shape x polls in 0..3 x nil/error, alone, twice in a row, followed by an immediately completing command, as what a chosen option leads to, and next to another runner with handlers of the same names",
 		func(yield func(c10Case) bool) {
 			for _, shape := range []string{"raw", "chan", "rchan", "void", "err"} {
 				for polls := 0; polls <= 3; polls++ {
